@@ -391,14 +391,19 @@ theorem doListenToken_prog (c : Ctx) (now l : Int) (hs : Sil c l) :
     Prog c l (fun _ => ¬ Late c.s.p l now) (doListenToken c now) := by
   intro c' h
   unfold doListenToken at h
+  -- destructure the pair BEFORE `split` (otherwise the kernel needs ≈ 60 s for the splitter proof)
+  rcases hlt : handleLostToken c now with ⟨c1, o⟩
+  rw [hlt] at h
   split at h
   · rename_i sr coll hst
     by_cases hlost : (now - l).natAbs ≥ c.s.p.tokenLostTimeout
-    · rw [lost_claim c now l hs (Or.inr ⟨_, _, hst⟩) hlost] at h
+    · rw [lost_claim c now l hs (Or.inr ⟨_, _, hst⟩) hlost] at hlt
+      cases hlt
       simp only at h
       obtain ⟨h1, h2, h3⟩ := claimFirst_result c now l hs c' h
       exact ⟨h1, h2, h3.imp (fun h => by rw [h.1]; simp) (fun ⟨a, b⟩ => ⟨a, fun hl => hl.sync b⟩)⟩
-    · rw [not_lost c now l hs hlost] at h
+    · rw [not_lost c now l hs hlost] at hlt
+      cases hlt
       have hnl : ¬ Late c.s.p l now := fun hl => hlost hl.lost
       simp only at h
       split at h
@@ -433,14 +438,18 @@ theorem doActiveIdle_prog (c : Ctx) (now l : Int) (hs : Sil c l) :
     Prog c l (fun _ => ¬ Late c.s.p l now) (doActiveIdle c now) := by
   intro c' h
   unfold doActiveIdle at h
+  rcases hlt : handleLostToken c now with ⟨c1, o⟩
+  rw [hlt] at h
   split at h
   · rename_i sr np coll hst
     by_cases hlost : (now - l).natAbs ≥ c.s.p.tokenLostTimeout
-    · rw [lost_claim c now l hs (Or.inl ⟨_, _, _, hst⟩) hlost] at h
+    · rw [lost_claim c now l hs (Or.inl ⟨_, _, _, hst⟩) hlost] at hlt
+      cases hlt
       simp only at h
       obtain ⟨h1, h2, h3⟩ := claimFirst_result c now l hs c' h
       exact ⟨h1, h2, h3.imp (fun h => by rw [h.1]; simp) (fun ⟨a, b⟩ => ⟨a, fun hl => hl.sync b⟩)⟩
-    · rw [not_lost c now l hs hlost] at h
+    · rw [not_lost c now l hs hlost] at hlt
+      cases hlt
       have hnl : ¬ Late c.s.p l now := fun hl => hlost hl.lost
       simp only at h
       split at h
@@ -936,20 +945,20 @@ theorem pollInner_dispatch (c : Ctx) (now l : Int) (hs : Sil c l) (hinv : Inv c.
 theorem idle_claims (c : Ctx) (now l : Int) (hs : Sil c l) (hidle : IdleLike c.s.st)
     (hlost : (now - l).natAbs ≥ c.s.p.tokenLostTimeout) :
     dispatch c now = doClaimToken { c with s := { c.s with st := .claimToken .firstToken } } now 2 := by
+  -- the claim result is made opaque and `handleLostToken` is rewritten to a constructor pair BEFORE the
+  -- iota steps (kernel: 52 s otherwise)
+  have hlc := lost_claim c now l hs hidle hlost
+  generalize doClaimToken { c with s := { c.s with st := .claimToken .firstToken } } now 2 = X at hlc ⊢
   unfold dispatch
   rcases hidle with ⟨a, b, d, hst⟩ | ⟨a, b, hst⟩
   · rw [hst]
     simp only
     unfold doActiveIdle
-    rw [hst]
-    simp only
-    rw [lost_claim c now l hs (Or.inl ⟨_, _, _, hst⟩) hlost]
+    rw [hlc, hst]
   · rw [hst]
     simp only
     unfold doListenToken
-    rw [hst]
-    simp only
-    rw [lost_claim c now l hs (Or.inr ⟨_, _, hst⟩) hlost]
+    rw [hlc, hst]
 
 /-- Slot expired in `CheckTokenPass` with nothing received, synchronisation pause over: the poll is
 `passTokenOn` from `PassToken(no gap, next attempt)` — after removing NS from the LAS at the third expiry. -/
@@ -1253,15 +1262,16 @@ theorem doListenToken_stamped (c : Ctx) (now : Int) (h : c.s.lastBusActivity = n
     doListenToken c now = doListenToken (stamped c now) now := by
   have hh := handleLost_stamped c now h
   unfold doListenToken
-  unfold stamped at hh ⊢
-  simp only [hh]
+  -- `rw` + `rfl` (argument-wise comparison) instead of `simp only [hh]` (kernel: 118 s)
+  rw [hh]
+  rfl
 
 theorem doActiveIdle_stamped (c : Ctx) (now : Int) (h : c.s.lastBusActivity = none) :
     doActiveIdle c now = doActiveIdle (stamped c now) now := by
   have hh := handleLost_stamped c now h
   unfold doActiveIdle
-  unfold stamped at hh ⊢
-  simp only [hh]
+  rw [hh]
+  rfl
 
 theorem holdUpdate_stamped (s : Station) (d : UseData) (now : Int) :
     holdUpdate { s with lastBusActivity := some now } d = { (holdUpdate s d) with lastBusActivity := some now } := by
